@@ -5,7 +5,7 @@ CONSTANTS
   KeyOf <- CrossKey
   EphOf <- CrossEph
   SessIdx <- CrossIdx
-  MaxForge = 3
+  MaxForge = 2
   MaxSend = 0
   Window = 1000
   Weak = {}
